@@ -214,6 +214,40 @@ impl RelationMetadata {
     }
 }
 
+/// Atomically replace `path` with `content`: write to `<name>.tmp`, fsync, rename over the
+/// target and fsync the parent directory.
+///
+/// A crash at any point leaves either the complete old file or the complete new file, never a
+/// truncated or half-written one (which `fs::write`, being truncate-then-write, can leave behind).
+pub fn write_file_atomic(path: &Path, content: &[u8]) -> std::io::Result<()> {
+    use std::io::Write;
+
+    let tmp_name = format!(
+        "{}.tmp",
+        path.file_name().unwrap_or_default().to_string_lossy()
+    );
+    let tmp_path = path.with_file_name(tmp_name);
+
+    let result = (|| {
+        let mut file = File::create(&tmp_path)?;
+        file.write_all(content)?;
+        file.sync_all()?;
+        fs::rename(&tmp_path, path)
+    })();
+    if let Err(e) = result {
+        let _ = fs::remove_file(&tmp_path);
+        return Err(e);
+    }
+
+    // Sync parent directory to ensure the rename is durable
+    if let Some(parent) = path.parent() {
+        if let Ok(dir) = File::open(parent) {
+            let _ = dir.sync_all();
+        }
+    }
+    Ok(())
+}
+
 #[cfg(test)]
 #[allow(clippy::unwrap_used)]
 mod tests {
